@@ -23,7 +23,7 @@ RULE = ('one workbook per generated table (key column of height 1-8, width 1-4, 
         'non-trivial = the lookup value sits at a boundary (duplicate key, first/last row, between keys, below/above all keys, '
         'result column = width), the INDEX pair is on the border or just outside, or the ADDRESS/COLUMN column has >= 2 letters; '
         'distinct = distinct (table, formula) or (function, row, column)')
-ASSUMPTIONS = ['approximate matching only on ascending numeric keys; text keys are single-case',
+ASSUMPTIONS = ['approximate matching only on ascending numeric keys; every text key has one fixed spelling (mixed case), so equality never depends on case folding',
                'lookup values 0 and "" are not used when the key column contains blanks',
                'INDEX with a 0 index, multi-area INDEX, binary-search XMATCH modes and VLOOKUP column 0 / > width are not asserted']
 
@@ -250,7 +250,7 @@ def run_grid_point(case):
 
 def strategy():
     from hypothesis import strategies as st
-    WORDS = ['ant', 'bee', 'cat', 'dog', 'eel', 'fox', 'gnu', 'hen']
+    WORDS = ['Ant', 'bee', 'Cat', 'dog', 'EEL', 'fox', 'Gnu', 'hen', 'ID-3']   # one fixed spelling per word: equal means identical
 
     @st.composite
     def spec(draw):
